@@ -45,7 +45,7 @@ type nodeStats struct {
 	Samples                                                                                                                                                                             []string
 	Notes                                                                                                                                                                               []string
 	Scenarios                                                                                                                                                                           int
-	C08Compared, C08Resets, TwoRoundScenarios, C08InDealsWindow, ReinitProbes, Reinits                                                                                                  int
+	C08Compared, C08Resets, TwoRoundScenarios, C08InDealsWindow, ReinitProbes, Reinits, FarFutureProposals                                                                                                  int
 	CancelledRounds                                                                                                                                                                     int
 	C08Late, C08StampsMoved, PrefilledResults, JSONVariants, KeylessReinits, ReinitVariants, ForgedOwnName, CollectedHere, C08RealLoop, ProposalsStored, ReorderedReinits, ErrorResults int
 	StaleSignatures, ForgedAnnouncements, ForgedAnnouncementsNoRound, RekeyedRoundBoards, RekeyedRoundCopies                                                                            int
@@ -541,6 +541,7 @@ func (r *nodeRun) feedOp(c *cluster, n *vnode, m storage.Message, kind, opName s
 	if outcome == "reject" && (before != after || !bytes.Equal(storeBefore, storeAfter)) {
 		r.mon(fmt.Sprintf("C18 reject_is_noop: a rejected %s message (%s from %s) changed durable state", kind, m.Event, m.SenderAddr))
 	}
+	w22AfterFeed(r, c, n, m, kind, opName, outcome, snap) // nodew22.go (C03)
 	if snap != nil {
 		rawRestore(n, snap)
 		if _, held := snap[storeKey]; !held && !bytes.Equal(storeBefore, storeAfter) {
@@ -825,6 +826,7 @@ func (r *nodeRun) scenario(outDir string, n, t int, twoRounds bool) {
 			}
 			if m.RecipientAddr == "" || m.RecipientAddr == obs.name {
 				all := r.mutate(c, obs, m, otherRound)
+				all = w22Filter(all) // nodew22.go
 				var muts, jmuts []mutation
 				for _, mu := range all {
 					if strings.HasPrefix(mu.name, "json-") || strings.HasPrefix(mu.name, "replay-other-event>") {
@@ -1042,6 +1044,7 @@ func (r *nodeRun) scenario(outDir string, n, t int, twoRounds bool) {
 		}
 	}
 	r.reinitProbes(c, obs, round)
+	r.farFutureProposal(c, obs, round)
 	// two signing batches, one with a late signer
 	for b := 0; b < 2; b++ {
 		prop := c.nodes[r.rng.Intn(n)]
@@ -1095,6 +1098,7 @@ func (r *nodeRun) scenario(outDir string, n, t int, twoRounds bool) {
 		pumpAll(20)
 		pumpAll(20)
 	}
+	r.w22OmittedKeys(c, obs, round, pumpAll) // nodew22.go (C03)
 	// junk that looks different to different readers: for every node a signing proposal in ITS OWN name (its participant id, a
 	// signature that does not verify). Whether a message is accepted may not depend on who reads it: all reject it, and the
 	// nodes still agree afterwards (C08; the sender field of a board message is not authenticated)
@@ -1415,6 +1419,58 @@ func (r *nodeRun) reinitProbes(c *cluster, obs *vnode, round string) {
 	probe("envelope names an existing round, dkg_id fresh", round, "fresh-round-y")
 	probe("no dkg_id", "fresh-round-z", "")
 	probe("a dkg_id of blanks", "fresh-round-z", "  ")
+}
+
+// farFutureProposal: an opening proposal (unsigned by design: anybody can post one) for a round id nobody has used,
+// stamped in the last days of the year 9999: its deadline falls into the year 10000, which encoding/json refuses to write.
+// Whatever the node answers, its rounds must stay listable and loadable, and a refusal must leave nothing behind.
+func (r *nodeRun) farFutureProposal(c *cluster, obs *vnode, round string) {
+	d, err := obs.fsmSvc.GetFSMDump(&dto.DkgIdDTO{DkgID: round})
+	if err != nil || d.Payload == nil || d.Payload.SignatureProposalPayload == nil {
+		return
+	}
+	var parts []*requests.SignatureProposalParticipantsEntry
+	ids := make([]int, 0)
+	for id := range d.Payload.SignatureProposalPayload.Quorum {
+		ids = append(ids, id)
+	}
+	sort.Ints(ids)
+	for _, id := range ids {
+		p := d.Payload.SignatureProposalPayload.Quorum[id]
+		parts = append(parts, &requests.SignatureProposalParticipantsEntry{Username: p.Username, PubKey: p.PubKey, DkgPubKey: p.DkgPubKey})
+	}
+	for _, stamp := range []string{"9999-12-30T00:00:00Z", "9999-12-31T23:59:59Z"} {
+		ts, _ := time.Parse(time.RFC3339, stamp)
+		req := requests.SignatureProposalParticipantsListRequest{Participants: parts, SigningThreshold: 2, CreatedAt: ts}
+		bz, err := json.Marshal(req)
+		if err != nil {
+			return
+		}
+		m := storage.Message{ID: "far-future", DkgRoundID: "round-of-the-year-9999", Event: "event_sig_proposal_init", Data: bz, SenderAddr: "stranger"}
+		snap := rawSnap(obs)
+		beforeAll := nodeRender(obs)
+		var perr error
+		func() {
+			defer func() {
+				if rec := recover(); rec != nil {
+					r.mon(fmt.Sprintf("C18 never_panics: ProcessMessage panicked on an opening proposal stamped %s", stamp))
+				}
+			}()
+			perr = obs.svc.ProcessMessage(m)
+		}()
+		r.st.FarFutureProposals++
+		if _, lerr := obs.fsmSvc.GetFSMList(); lerr != nil {
+			r.mon(fmt.Sprintf("C19 rounds_stay_listable: after an opening proposal (anybody can post one) for a fresh round id stamped %s - answered with %v - the node can no longer list its rounds: %s", stamp, perr, truncate(lerr.Error(), 160)))
+		}
+		if perr == nil {
+			if _, gerr := obs.fsmSvc.GetFSMInstance(m.DkgRoundID, false); gerr != nil {
+				r.mon(fmt.Sprintf("C19 restore_total: an opening proposal stamped %s was accepted and the round it opened cannot be loaded again: %s", stamp, truncate(gerr.Error(), 160)))
+			}
+		} else if now := nodeRender(obs); now != beforeAll {
+			r.mon(fmt.Sprintf("C18 reject_is_noop: an opening proposal stamped %s was refused (%s) and still changed the node %s", stamp, truncate(perr.Error(), 100), firstDiff(beforeAll, now)))
+		}
+		rawRestore(obs, snap)
+	}
 }
 
 // reinitObserved: the observed node, with an empty state database again, is re-initialised from a dump of the board by
